@@ -422,7 +422,9 @@ class Run:
         self.stoch_objs = list(self.compiler.sids.objs)
         samples = all(v >= 0 for v in self.compiler.sample_values)
         g = guards(self.instance, self.init_state)
-        self.out.append("G " + " ".join(canon.b01(x) for x in g[:7] + (samples,) + g[7:]))
+        # fuelOKB (JSL/Model/FuelBound.lean): the rounds granted to the model's timed loop suffice in the class of C05
+        fuel_ok = 6 * len(self.instance.machines) + 5 * len(self.instance.transports) + 2 <= sc.get("fuel", 3000)
+        self.out.append("G " + " ".join(canon.b01(x) for x in g[:7] + (samples,) + g[7:] + (fuel_ok,)))
         self.out.append(f"L {env.lower_bound} {env.max_allowed_time}")
         if self.obs_kind == 0:
             self.out.append(space_line(env.observation_space))
@@ -431,8 +433,8 @@ class Run:
         self.out.append(obs_line(env.current_observation[0], self.obs_kind, env.observation_space))
         if self.k_classic:
             # what the generator calls a classic instance must lie in the class of the C06 reachability
-            # theorems (instance guard, start guard, fuel bound): otherwise they would say nothing about it
-            self.out.append("K 1 1 1")
+            # theorems (instance guard, start guard, the two fuel bounds, one AGV per job): otherwise they would say nothing about it
+            self.out.append("K 1 1 1 1 1")
         rec.result, rec.env_state, rec.obs = env.state, env.state, env.current_observation[0]
         rec.terminated = rec.truncated = False
         self.first_reset_canon = canon.state(env.state.state)
